@@ -1197,9 +1197,12 @@ func (c *Ctx) probes() {
 	oddity("literal-postfix", "(1).x", "1 .x")
 	oddity("literal-postfix", "(true).x", "true.x")
 	oddity("unary-literal-postfix", "-(1[0])", "-1[0]")
-	oddity("not-in-whitespace", "a not in b", "a not\tin b")
-	oddity("not-in-whitespace", "a not in b", "a not in\nb")
-	oddity("not-in-whitespace", "a not in [b]", "a not in[b]")
+	// `not in` is one token only when `not` and `in` are separated by U+0020 blanks and `in` is followed by U+0020 or
+	// the end of the input (lexer.acceptWord): any other white space between or after makes the text a syntax error -
+	// white space DOES change the outcome there (listed finding)
+	same("c11:whitespace:not-in", "white space other than U+0020 inside / after `not in` changes the outcome", "a not in b", "a not\tin b")
+	same("c11:whitespace:not-in", "white space other than U+0020 inside / after `not in` changes the outcome", "a not in b", "a not in\nb")
+	same("c11:whitespace:not-in", "white space other than U+0020 inside / after `not in` changes the outcome", "a not in [b]", "a not in[b]")
 	oddity("nilsafe-sticky", "(a?.b).c", "a?.b.c")
 	oddity("unary-swallows", "a * (not b) * c", "a * not b * c")
 }
